@@ -232,6 +232,8 @@ def roundtrip(dag, blob):
         s = Slice.one_from_boc(blob)
         if s.bits.to01() != orig.bits.to01() or [r.hash for r in s.refs] != [r.hash for r in orig.refs]:
             return "slice: Slice.one_from_boc differs"
+        if s.is_special() != (orig.type_ != -1) or s.to_cell().hash != orig.hash:
+            return "slice: Slice.one_from_boc loses the cell type of an exotic root"
         if orig.type_ == -1:
             b = Builder.one_from_boc(blob)
             if b.end_cell().hash != orig.hash:
